@@ -89,7 +89,18 @@ func (m *Machine) Concat(a, b Text) Text {
 		}
 		seq = m.add(c.Bin(sym.OpMul, as, m.IntC(pow)), bs)
 	} else {
-		seq = c.UF("seqcat", m.intSort(), as, bs, bk)
+		// symbolic number of marks in the suffix: case split over the small range that occurs (0..12)
+		var acc T = c.UF("seqcat", m.intSort(), as, bs, bk)
+		pow := int64(1)
+		var pows []int64
+		for i := 0; i <= 12; i++ {
+			pows = append(pows, pow)
+			pow *= 16
+		}
+		for i := 12; i >= 0; i-- {
+			acc = c.Ite(c.Eq(bk, m.IntC(int64(i))), m.add(c.Bin(sym.OpMul, as, m.IntC(pows[i])), bs), acc)
+		}
+		seq = acc
 	}
 	return Text{m.add(a.W, b.W), m.add(a.N, b.N), m.add(a.NL, b.NL), m.add(a.CUU, b.CUU), id, lit, seq, m.add(ak, bk)}
 }
